@@ -160,3 +160,96 @@ func BubbleGoroutines() []string {
 	}
 	return out
 }
+
+// DialResult is the outcome of one dial of a series.
+type DialResult struct {
+	Index     int
+	DialErr   error
+	AcceptErr error
+	Transfer  *TransferResult
+	// causes observed after the post-transfer idle period (nil = still alive)
+	ClientCauseAfterIdle error
+	ServerCauseAfterIdle error
+	Viols     []Viol
+}
+
+// SeriesResult is the outcome of a dial series in one world.
+type SeriesResult struct {
+	Dials         []DialResult
+	Taps          []*wiretap.ConnTap
+	FaultsApplied int
+	RouterLog     []simworld.Event
+	WorldErr      error
+}
+
+// RunDialSeries dials n times in one world (same client transport, same spec value), each dial
+// followed by the application script and an idle period of `idle` virtual time during which
+// both connections must stay alive; the previous connection is closed before the next dial.
+// If freshTransport is set, every dial uses a new client transport (and socket address) that
+// shares the spec pointer.
+func RunDialSeries(opt Options, n int, ts TransferSpec, idle time.Duration, connIdxBase int) *SeriesResult {
+	res := &SeriesResult{}
+	verifhook.TakePoolViolations()
+	w, err := New(opt)
+	if err != nil {
+		res.WorldErr = err
+		return res
+	}
+	for i := 0; i < n; i++ {
+		dr := DialResult{Index: i}
+		if w.Wire != nil {
+			w.Wire.ResetOrdinals()
+		}
+		ctx, cancel := context.WithTimeout(context.Background(), 45*time.Second)
+		type acc struct {
+			c   *quic.Conn
+			err error
+		}
+		accCh := make(chan acc, 1)
+		go func() {
+			c, err := w.Accept(ctx)
+			accCh <- acc{c, err}
+		}()
+		client, derr := w.Dial(ctx)
+		dr.DialErr = derr
+		if derr != nil {
+			cancel()
+		}
+		a := <-accCh
+		server := a.c
+		dr.AcceptErr = a.err
+		if derr == nil && a.err == nil {
+			dr.Transfer = RunTransfer(ctx, client, server, connIdxBase+i, ts)
+			dr.Viols = append(dr.Viols, dr.Transfer.Viols...)
+			if idle > 0 {
+				time.Sleep(idle)
+				if client.Context().Err() != nil {
+					dr.ClientCauseAfterIdle = context.Cause(client.Context())
+				}
+				if server.Context().Err() != nil {
+					dr.ServerCauseAfterIdle = context.Cause(server.Context())
+				}
+			}
+		}
+		cancel()
+		if client != nil {
+			client.CloseWithError(0, "")
+		}
+		if server != nil {
+			server.CloseWithError(0, "")
+		}
+		time.Sleep(200 * time.Millisecond)
+		res.Dials = append(res.Dials, dr)
+	}
+	res.FaultsApplied, _ = w.Router.FaultsApplied()
+	w.Close()
+	time.Sleep(3 * time.Second)
+	if w.Wire != nil {
+		res.Taps = w.Wire.Snapshot()
+	}
+	res.RouterLog = w.Router.Log
+	for _, v := range verifhook.TakePoolViolations() {
+		res.Dials[len(res.Dials)-1].Viols = append(res.Dials[len(res.Dials)-1].Viols, Viol{"pool|" + strings.ReplaceAll(v.What, " ", "-") + "|" + v.Kind, v.String()})
+	}
+	return res
+}
